@@ -382,6 +382,10 @@ def main(pid, tier, seed, replay=None):
     nt = {json.dumps(sc_by_tid[r["tid"]]["hist"], sort_keys=True) for r in records
           if {"AddStart", "Filter"} <= kinds(r) or "Crash" in kinds(r)}
     ex = next((r for r in records if "Crash" in kinds(r)), records[0])
+    extended = None
+    if not replay:
+        from . import replay_logger
+        extended = replay_logger.extended_stage(tier, seed)
     cov = {
         "states": (mc.distinct if mc else 0) + states,
         "transitions": (mc.generated if mc else 0) + trans,
@@ -395,6 +399,7 @@ def main(pid, tier, seed, replay=None):
                 "crash; distinct by schedule" % TICK,
         "samples": [core.trim({"events": [{k: v for k, v in e.items() if k not in ("rows", "res")} for e in ex["events"]]}, 2500)],
         "plan": plan,
+        "extended_spec": extended,
         "crashes": sum(1 for r in records for e in r["events"] if e["ev"] == "Crash"),
         "aborts_or_busy": sum(1 for r in records for e in r["events"] if e["ev"] == "AddEnd" and not e["ok"]),
         "interrupted_adds": sum(1 for r in records for e in r["events"] if e["ev"] == "AddEnd" and "interrupt" in e["err"]),
